@@ -22,6 +22,7 @@ func runC04(c *Ctx) {
 	c02CacheExact(c, "C04.cache-exact")
 	c04Untagged(c)
 	c04CacheKey(c)
+	c04CompositeLoc(c)
 }
 
 func c04KeyLoc(c *Ctx) {
